@@ -575,6 +575,8 @@ impl<Tx: Debug + ProstMessage + Default, Rx: Debug + ProstMessage + Default> Cha
             // until the peer disconnects.
             if message_len < delimiter_size() {
                 self.front_buf.consume(delimiter_size());
+                // bytes were dropped: there may be room again, keep reading
+                self.interest.insert(Ready::READABLE);
                 return Err(ChannelError::MessageLengthUnderDelimiter {
                     message_len,
                     delimiter_size: delimiter_size(),
@@ -616,6 +618,7 @@ impl<Tx: Debug + ProstMessage + Default, Rx: Debug + ProstMessage + Default> Cha
                         // Left in place it would be decoded again on every call
                         // and the messages queued behind it never delivered.
                         self.front_buf.consume(message_len);
+                        self.interest.insert(Ready::READABLE);
                         return Err(ChannelError::InvalidProtobufMessage(decode_error));
                     }
                 };
